@@ -74,6 +74,7 @@ type cluster struct {
 	watchGroup *threading.RoutineGroup
 	done       chan lang.PlaceholderType
 	lock       sync.Mutex
+	reloadLock sync.Mutex
 }
 
 func newCluster(endpoints []string) *cluster {
@@ -122,9 +123,18 @@ func (c *cluster) watchConnState(cli EtcdClient) {
 }
 
 func (c *cluster) reload(cli EtcdClient) {
+	// 串行化并发的 reload
+	c.reloadLock.Lock()
+	defer c.reloadLock.Unlock()
+
 	c.lock.Lock()
 	close(c.done)
-	c.watchGroup.Wait()
+	watchGroup := c.watchGroup
+	c.lock.Unlock()
+	// 不能持有 c.lock 等待：正在处理事件的监控协程还需要该锁，否则死锁
+	watchGroup.Wait()
+
+	c.lock.Lock()
 	c.done = make(chan lang.PlaceholderType)
 	c.watchGroup = threading.NewRoutineGroup()
 	var keys []string
